@@ -134,3 +134,38 @@ func VerifC33Body(body io.ReadCloser) (id uint32, buffered int, readable bool) {
 
 // VerifC33MaxQueuedControlFrames is the limit the serve loop compares against.
 func VerifC33MaxQueuedControlFrames() int { return (&Server{}).maxQueuedControlFrames() }
+
+// VerifC33Held is handed to a function that runs ON the serve goroutine (the serve loop is held while it
+// runs): it lets the harness make the serve loop process a stream-closing event at a chosen point, e.g.
+// after a handler has pulled octets out of its body pipe but before the serve loop receives the
+// corresponding bodyReadMsg (property C33: every interleaving of read notifications and closes).
+type VerifC33Held struct{ sc *serverConn }
+
+// ClientReset processes a client RST_STREAM(CANCEL) for stream id (real processResetStream).
+func (h VerifC33Held) ClientReset(id uint32) error {
+	return h.sc.processResetStream(&RSTStreamFrame{FrameHeader: FrameHeader{StreamID: id}, ErrCode: ErrCodeCancel})
+}
+
+// ServerReset resets stream id the way a stream error / stream timeout does (real resetStream).
+func (h VerifC33Held) ServerReset(id uint32, code uint32) {
+	h.sc.resetStream(StreamError{id, ErrCode(code), "verif"})
+}
+
+// Held runs fn on the serve goroutine; false if the serve loop has ended.
+func (v *VerifC33Conn) Held(fn func(h VerifC33Held)) bool {
+	if v.sc == nil {
+		return false
+	}
+	done := make(chan struct{})
+	f := func(int) {
+		defer close(done)
+		fn(VerifC33Held{v.sc})
+	}
+	select {
+	case v.sc.testHookCh <- f:
+		<-done
+		return true
+	case <-v.sc.doneServing:
+		return false
+	}
+}
